@@ -324,6 +324,11 @@ func (c21) Execute(sc *engine.Scenario) *engine.Result {
 					d0 = 16 * int(p0&7)
 				}
 				m.RunCycles(uint64(d0<<uint(p0>>4))/4 + 1)
+				if v := lf(); v == 0 || v == 0x7fff {
+					// the visit has emptied (or filled) the register: frozen for good, legitimately
+					res.Sig("ch4/short-visit-froze-the-register")
+					return res
+				}
 				res.Probe("short_mode_visited_in_a_degenerate_state")
 			}
 			m.Write(0xff22, nr43)
